@@ -339,7 +339,31 @@ def _seed_kwargs(form, s):
     raise ValueError(form)
 
 
-def build_script_model(spec):
+def make_shared(spec):
+    """the externally built MUTABLE objects a script model is given: a networkx graph (discrete_space.Network / legacy
+    NetworkGrid), PropertyLayer objects (legacy grids), a list handed to create_agents, a parameter dict.  The scripts only
+    READ them, so whatever a later model sees differently was left behind by Mesa, not by the script."""
+    import warnings
+
+    import networkx as nx
+
+    w, h = spec["w"], spec["h"]
+    g = nx.convert_node_labels_to_integers(nx.grid_2d_graph(w, h))
+    layers = []
+    if spec["space"] in ("single", "multi"):
+        import numpy as np
+
+        from mesa.space import PropertyLayer
+
+        with warnings.catch_warnings():
+            warnings.simplefilter("ignore")
+            lay = PropertyLayer("elev", w, h, 0, dtype=int)
+        lay.data[:] = np.arange(w * h).reshape(w, h) % 3
+        layers = [lay]
+    return {"graph": g, "layers": layers, "energies": [3, 1, 4, 1, 5, 9, 2, 6], "params": {"bonus": 1, "weights": [1, 2, 3]}}
+
+
+def build_script_model(spec, shared=None):
     """A model made only of Mesa's stochastic API; spec is JSON.  Returns (model, do_op)."""
     import networkx as nx
 
@@ -347,19 +371,30 @@ def build_script_model(spec):
     from mesa.discrete_space import CellAgent, HexGrid, Network, OrthogonalMooreGrid, OrthogonalVonNeumannGrid
     from mesa.experimental.continuous_space import ContinuousSpace as XCS
     from mesa.experimental.continuous_space import ContinuousSpaceAgent
-    from mesa.space import MultiGrid, SingleGrid
+    from mesa.space import MultiGrid, NetworkGrid, SingleGrid
 
     kind = spec["space"]
     w, h, torus = spec["w"], spec["h"], spec["torus"]
     cellspace = kind in ("moore", "vonneumann", "hex", "network")
     legacy = kind in ("single", "multi")
+    if shared is None:
+        shared = make_shared(spec)
 
     def behave(a):
         """one activation: draws from the agent's generators only"""
-        a.energy += a.random.randrange(5) - 2
+        a.energy += a.random.randrange(5) - 2 + shared["params"]["bonus"] * (shared["params"]["weights"][a.unique_id % 3] % 2)
         if a.random.random() < 0.5:
             a.mark = int(a.rng.integers(1000))
         m = a.model
+        if kind == "netgrid":
+            g = m.grid
+            if a.pos is not None:
+                if a.random.random() < 0.7:
+                    g.move_agent(a, a.random.choice(g.get_neighborhood(a.pos)))
+                others = [b for b in g.get_neighbors(a.pos, include_center=True) if b is not a]
+                if others:
+                    a.friend = a.random.choice(others).unique_id
+            return
         if cellspace and a.cell is None:
             return    # the space was full when this agent was created
         if cellspace:
@@ -391,6 +426,8 @@ def build_script_model(spec):
                     nbs = g.get_neighbors(a.pos, moore=True, include_center=False, radius=1)
                     if nbs:
                         a.friend = a.random.choice(nbs).unique_id
+                if a.pos is not None and "elev" in getattr(g, "properties", {}):
+                    a.mark += int(g.properties["elev"].data[a.pos])     # read only
         elif kind == "cont":
             import numpy as np
 
@@ -431,13 +468,13 @@ def build_script_model(spec):
             elif kind == "hex":
                 self.grid = HexGrid((w, h), torus=False, capacity=self.capacity, random=r)
             elif kind == "network":
-                g = nx.grid_2d_graph(w, h)
-                g = nx.convert_node_labels_to_integers(g)
-                self.grid = Network(g, capacity=self.capacity, random=r)
+                self.grid = Network(shared["graph"], capacity=self.capacity, random=r)     # the graph is built outside
+            elif kind == "netgrid":
+                self.grid = NetworkGrid(shared["graph"])
             elif kind == "single":
-                self.grid = SingleGrid(w, h, torus)
+                self.grid = SingleGrid(w, h, torus, property_layers=shared["layers"] or None)
             elif kind == "multi":
-                self.grid = MultiGrid(w, h, torus)
+                self.grid = MultiGrid(w, h, torus, property_layers=shared["layers"] or None)
             elif kind == "cont":
                 self.space = XCS([[0, w], [0, h]], torus=True, random=r, n_agents=max(2, spec["n"]))
             self.populate(spec["n"])
@@ -456,6 +493,8 @@ def build_script_model(spec):
                         a, self.random.choice(sorted(self.grid.empties)))
             elif kind == "multi":
                 self.grid.place_agent(a, (self.random.randrange(w), self.random.randrange(h)))
+            elif kind == "netgrid":
+                self.grid.place_agent(a, self.random.choice(list(shared["graph"].nodes)))
             elif kind == "cont":
                 a.position = [self.random.randrange(w * 2) / 2, self.random.randrange(h * 2) / 2]
 
@@ -469,7 +508,9 @@ def build_script_model(spec):
                 for a in s:
                     self.place(a)
             if n - na:
-                s = KB.create_agents(self, n - na, 5, group=self.random.randrange(3))
+                k2 = n - na
+                s = KB.create_agents(self, k2, shared["energies"][:k2] if k2 <= len(shared["energies"]) else 5,
+                                     group=self.random.randrange(3))    # a list built outside the model
                 for a in s.shuffle():
                     self.place(a)
 
@@ -542,16 +583,30 @@ def build_script_model(spec):
     return model, do_op
 
 
-def run_script_job(job, detail_step=None):
+def run_script_job(job, detail_step=None, share=False):
+    """share=True: the measured model is built from the VERY SAME externally built objects (graph, layers, lists, parameter
+    dict) that a prior model of the same kind (other seed) was given and ran on, in this process"""
     import warnings
 
     spec = job["spec"]
+    shared = make_shared(spec)
+    prior_keepalive = None
+    if share:
+        with warnings.catch_warnings():
+            warnings.simplefilter("ignore")
+            try:
+                pm, pdo = build_script_model(dict(spec, seed=spec["seed"] + 1), shared)
+                for op in spec["ops"]:
+                    pdo(op)
+                prior_keepalive = pm
+            except Exception:  # noqa: BLE001  a prior history that fails is still a prior history
+                pass
     g0 = _global_state()
     changed = None
     warned = []
     with warnings.catch_warnings(record=True) as wl:
         warnings.simplefilter("always")
-        model, do_op = build_script_model(spec)
+        model, do_op = build_script_model(spec, shared)
         digests = []
         snaps = None
         s = snapshot(model)
@@ -786,12 +841,87 @@ def run_batch_job(job):
     return {"rows": _sha(canon), "n": len(rows), "iterations_equal": iter_equal}
 
 
-def run_job(job, detail_step=None):
+def run_batch_graph_job(job):
+    """batch_run with number_processes=1 over a parameter that holds ONE graph object (every run of the sweep gets the very
+    same object) against the same runs on pristine graphs: the collected model data must be equal run by run"""
+    import warnings
+
+    import networkx as nx
+
+    import mesa
+    from mesa.batchrunner import batch_run
+    from mesa.discrete_space import CellAgent, Network
+    from mesa.space import NetworkGrid
+
+    legacy = job["grid"] == "NetworkGrid"
+
+    def make_graph():
+        g = nx.cycle_graph(8)
+        g.add_edges_from([(0, 4), (2, 6)])
+        return g
+
+    class GA(mesa.Agent if legacy else CellAgent):
+        def __init__(self, model):
+            super().__init__(model)
+            self.wealth = 1
+
+        def step(self):
+            g = self.model.grid
+            if legacy:
+                g.move_agent(self, self.random.choice(g.get_neighborhood(self.pos)))
+                others = [a for a in g.get_neighbors(self.pos, include_center=True) if a is not self]
+            else:
+                self.cell = self.cell.neighborhood.select_random_cell()
+                others = [a for a in self.cell.agents if a is not self]
+            if others and self.wealth > 0:
+                self.random.choice(others).wealth += 1
+                self.wealth -= 1
+
+    class GraphModel(mesa.Model):
+        def __init__(self, graph=None, n=6, seed=None):
+            super().__init__(seed=seed)
+            if legacy:
+                self.grid = NetworkGrid(graph)
+                for a in GA.create_agents(self, n):
+                    self.grid.place_agent(a, self.random.choice(list(graph.nodes)))
+            else:
+                self.grid = Network(graph, random=self.random)
+                for a in GA.create_agents(self, n):
+                    a.cell = self.grid.all_cells.select_random_cell()
+            self.datacollector = mesa.DataCollector(
+                {"sig": lambda m: sum((a.unique_id + 1) * (a.wealth + 3) * ((a.pos if legacy else a.cell.coordinate) + 5) for a in m.agents),
+                 "n_in_space": lambda m: len(m.grid.agents)})
+            self.datacollector.collect(self)
+
+        def step(self):
+            self.agents.shuffle_do("step")
+            self.datacollector.collect(self)
+
+    with warnings.catch_warnings():
+        warnings.simplefilter("ignore")
+        shared_graph = make_graph()
+        rows = batch_run(GraphModel, {"graph": [shared_graph], "seed": job["seeds"]}, number_processes=1, iterations=job["iterations"],
+                         max_steps=job["steps"], data_collection_period=1, display_progress=False)
+        got = {}
+        for r in rows:
+            got.setdefault((r["iteration"], r["seed"]), []).append((r["Step"], r["sig"], r["n_in_space"]))
+        want = {}
+        for sd in job["seeds"]:
+            rows1 = batch_run(GraphModel, {"graph": [make_graph()], "seed": [sd]}, number_processes=1, iterations=1,
+                              max_steps=job["steps"], data_collection_period=1, display_progress=False)
+            want[sd] = sorted((r["Step"], r["sig"], r["n_in_space"]) for r in rows1)
+    bad = [[it, sd, sorted(v)[:3], want[sd][:3]] for (it, sd), v in sorted(got.items()) if sorted(v) != want[sd]]
+    return {"n": len(rows), "bad": bad[:2], "rows": _sha(sorted((k, sorted(v)) for k, v in got.items()))}
+
+
+def run_job(job, detail_step=None, share=False):
     k = job["kind"]
     if k == "example":
         return run_example_job(job, detail_step)
     if k == "script":
-        return run_script_job(job, detail_step)
+        return run_script_job(job, detail_step, share)
+    if k == "batch_graph":
+        return run_batch_graph_job(job)
     if k == "reset":
         return run_reset_job(job)
     if k == "batch":
@@ -810,7 +940,7 @@ def worker_main():
                     run_job(p)
                 except Exception:  # noqa: BLE001  a prior history that fails is still a prior history
                     pass
-            r = run_job(item["job"], item.get("detail_step"))
+            r = run_job(item["job"], item.get("detail_step"), bool(item.get("share")))
             out.append({"ok": True, "res": r})
         except Exception as e:  # noqa: BLE001
             import traceback
@@ -845,6 +975,8 @@ def _collect(proc_payload, timeout=600):
 def _job_name(job):
     if job["kind"] in ("example", "batch"):
         return job["model"]
+    if job["kind"] == "batch_graph":
+        return "batch_run/shared-graph"
     if job["kind"] == "script":
         return "api-script"
     return "Model"
@@ -910,7 +1042,8 @@ def run_env_case(case):
         order = order[hi % len(jobs):] + order[:hi % len(jobs)]      # every job comes first in some interpreter
         items = [{"job": jobs[i], "idx": i} for i in order]
         if case.get("priors", True):
-            items += [{"job": jobs[i], "idx": i, "priors": _prior_for(jobs[i], hi)} for i in order if jobs[i]["kind"] in ("example", "script")]
+            items += [{"job": jobs[i], "idx": i, "priors": _prior_for(jobs[i], hi), "share": jobs[i]["kind"] == "script"}
+                      for i in order if jobs[i]["kind"] in ("example", "script")]
         procs.append((h, order, items, _spawn(items, h)))
     runs = {i: [] for i in range(len(jobs))}    # job index -> [(env description, result)]
     for h, order, items, pp in procs:
@@ -922,7 +1055,9 @@ def run_env_case(case):
             i = it["idx"]
             envd = f"PYTHONHASHSEED={h}, " + (
                 "fresh interpreter" if pos == 0 else
-                "after instances of the same class with non-default constructor arguments and other models ran in the same process"
+                ("after a model that was given the very same externally built objects (graph, layers, lists, parameter dict) "
+                 "and other models ran in the same process" if it.get("share") else
+                 "after instances of the same class with non-default constructor arguments and other models ran in the same process")
                 if "priors" in it else "after other models ran in the same process")
             runs[i].append((envd, r, h, it))
     for i in runs:   # the reference is the run in a fresh interpreter when there is one
@@ -1013,6 +1148,17 @@ def run_env_case(case):
             if rr["rng_explicit"] is False and form in ("seed", "rng-int"):
                 failures.append({"key": f"C01/Model.reset_rng/explicit-seed-does-not-replay/{form}", "op": i,
                                  "what": f"Model({form}={job['seed']}): reset_rng({job['seed']}) does not replay the first {job['n']} draws of model.rng"})
+        elif job["kind"] == "batch_graph":
+            obs[i] = [rr["n"], len(rr["bad"])]
+            if rr["bad"]:
+                it, sd, g, wnt = rr["bad"][0]
+                failures.append({"key": f"C01/batch_run/shared-graph/{job['grid']}/depends-on-earlier-runs", "op": i,
+                                 "what": f"batch_run(number_processes=1) over a parameter holding ONE networkx graph for a {job['grid']} model: "
+                                         f"the run seed={sd} iteration={it} collected (step, signature, agents in space) {g}... but the same run on a "
+                                         f"pristine graph collects {wnt}...: an earlier model of the sweep left state behind in the shared graph"})
+            if any(r["res"]["rows"] != rr["rows"] for _, r, _, _ in rs):
+                failures.append({"key": f"C01/batch_run/shared-graph/{job['grid']}/hash-seed-changes-results", "op": i,
+                                 "what": "the same sweep gives different rows under different PYTHONHASHSEED"})
         elif job["kind"] == "batch":
             obs[i] = [rr["n"], int(rr["iterations_equal"])]
             if not rr["iterations_equal"]:
@@ -1870,7 +2016,7 @@ def _gen_world(rng, big=False):
 def _script_spec(rng):
     OPS = ["step", "shuffle_do", "shuffle_inplace", "shuffle_copy_do", "select_frac", "select_filter", "by_type", "groupby", "sort_do",
            "populate", "remove", "space_agents", "rand_cell", "rand_agent", "rand_empty", "np_draw"]
-    kind = rng.choice(["moore", "vonneumann", "hex", "network", "single", "multi", "cont", "none"])
+    kind = rng.choice(["moore", "vonneumann", "hex", "network", "network", "netgrid", "netgrid", "single", "multi", "cont", "none"])
     w, h = rng.randint(2, 5), rng.randint(2, 5)
     cap = rng.choice([None, None, 1, 2]) if kind in ("moore", "vonneumann", "hex", "network") else None
     n = rng.randint(0, min(8, w * h if (cap == 1 or kind == "single") else 8))
@@ -1905,7 +2051,9 @@ def gen_cases(rng, tier):
     # re-seeding
     cases.append({"kind": "env", "hashseeds": [0, 1], "priors": False,
                   "jobs": [{"kind": "reset", "form": f, "seed": rng.randrange(10**6), "n": 8}
-                          for f in ("seed", "rng-int", "rng-seq", "rng-gen", "rng-list")]})
+                          for f in ("seed", "rng-int", "rng-seq", "rng-gen", "rng-list")]
+                         + [{"kind": "batch_graph", "grid": g, "seeds": [rng.randrange(1000), rng.randrange(1000)], "iterations": 2, "steps": 4}
+                            for g in ("NetworkGrid", "Network")]})
     # batch_run in spawn workers
     bm = ["Schelling", "VirusOnNetwork"] if not thorough else ["Schelling", "VirusOnNetwork", "BoltzmannWealth", "WolfSheep"]
     for name in bm:
